@@ -1085,6 +1085,14 @@ where
         break existing_future.clone();
       }
 
+      // 2b. The lookup in `fetch_with` and this leader election are not one atomic step: a
+      //     load that was in flight when we missed may have finished in between. Look again
+      //     before starting a second load for the same miss (see the sync handle).
+      if let Some(value) = self.peek(key).await {
+        self.shared.metrics.record_hits(index, 1);
+        return value;
+      }
+
       // 3. We are the "leader". This is the ONLY time a MISS is recorded.
       self.shared.metrics.record_misses(index, 1);
       // Create a new future, insert it.
